@@ -39,6 +39,13 @@ def tensor_variants(rng):
         out.append(('hard', sym, ferm, a.fuse_legs(axes=((0, 2), 1, 3), mode='hard')))
         out.append(('meta', sym, ferm, a.fuse_legs(axes=((1, 3), (0, 2)), mode='meta')))
         out.append(('nested', sym, ferm, a.fuse_legs(axes=((0, 1), 2, 3), mode='hard').fuse_legs(axes=((0, 1), 2), mode='hard').fuse_legs(axes=((1, 0),), mode='meta')))
+        out.append(('meta-inorder', sym, ferm, a.fuse_legs(axes=((0, 1), (2, 3)), mode='meta')))      # meta fusion WITHOUT a pending permutation (fewer logical than native legs)
+        out.append(('meta-partial', sym, ferm, a.fuse_legs(axes=(0, (1, 2), 3), mode='meta')))
+        if sym in ('U1', 'dense'):
+            # real data in a configuration whose default dtype is complex (e.g. singular values of a complex matrix): the dtype belongs to the data, not to the configuration
+            ccfg = yastn.make_config(sym=T.sym_class(sym), fermionic=ferm, default_dtype='complex128')
+            legs = lg[:3]
+            out.append(('real-in-complex-config', sym, ferm, T.build_tensor(ccfg, sym, [1, -1, 1], legs, rng.choice(T.admissible_charges(sym, [1, -1, 1], legs)), random.Random(rng.randrange(1 << 30)), density=0.9, dtype='float64')))
         out.append(('empty', sym, ferm, yastn.Tensor(config=cfg, s=(1, -1, 1), n=tuple(1 for _ in mod) if mod else None)))
         out.append(('scalar', sym, ferm, mk(0, density=1.0)))
     return out
@@ -272,7 +279,8 @@ def main(tier, seed, replay=None):
     tv, mv, pv = tensor_variants(rng), mps_variants(rng), peps_variants(rng)
     evs = []
     skipped = 0
-    frac = 0.25 if tier == 'quick' else 1.0
+    frac = 0.2 if tier == 'quick' else 1.0
+    strata = set()
     for _, kind, steps, out, lazy0, lazyf in cases:
         if kind == 'Tensor':
             objs = [(v, sym, ferm, o) for v, sym, ferm, o in tv]
@@ -281,8 +289,10 @@ def main(tier, seed, replay=None):
         else:
             objs = [(v, sym, True, o) for k, v, sym, o in pv]
         for variant, sym, ferm, o in objs:
-            if kind == 'Tensor' and rng.random() > frac:
-                continue
+            stratum = (variant, sym, steps[0][0], tuple(steps[-1]), bool(lazy0))
+            if kind == 'Tensor' and stratum in strata and rng.random() > frac:
+                continue          # quick: a sample, but every (variant, first step, way of restoring, lazy) combination at least once
+            strata.add(stratum)
             if lazy0:
                 if kind != 'Tensor' or o.ndim < 2:
                     skipped += 1
@@ -304,8 +314,15 @@ def main(tier, seed, replay=None):
                 if kind in ('Mps', 'Mpo') and steps[0][0] in ('save_to_dict', 'save_to_hdf5') and o.pC is not None:
                     ref = o.shallow_copy()         # documented: these routes absorb the central block (same represented state, no central block)
                     ref.absorb_central_()
-                b, a = observe(kind, ref, sym), observe(kind, rest, sym)
-                if kind == 'Tensor':
+                b = observe(kind, ref, sym)
+                try:
+                    a = observe(kind, rest, sym)
+                except Exception as ex:      # the restored object cannot even be read through the public API
+                    a = {k: ('unreadable: %s' % type(ex).__name__) for k in b}
+                unreadable = [v for v in a.values() if isinstance(v, str) and v.startswith('unreadable')]
+                if unreadable:
+                    diff = [unreadable[0]]
+                elif kind == 'Tensor':
                     pend = a['trans'] == b['trans'] and a['trans'] != sorted(a['trans'])
                     ident = a['trans'] == sorted(a['trans'])
                     obs['pending'] = bool(pend)
@@ -322,7 +339,10 @@ def main(tier, seed, replay=None):
                         else:
                             diff[diff.index('sites')] = 'sites %s' % sd[:2]
                 obs['payload'] = 'same' if not diff else 'differs in: %s' % diff
-                obs['follow'] = follow_up(kind, ref, rest)
+                try:
+                    obs['follow'] = follow_up(kind, ref, rest) if not unreadable else 'same'
+                except Exception as ex:
+                    obs['follow'] = 'follow-up raised %s' % type(ex).__name__
             pending0 = bool(kind == 'Tensor' and list(o.trans) != sorted(o.trans))     # the state actually handed in (meta fusion leaves a pending permutation)
             evs.append({'op': 'route', 'kind': kind, 'variant': '%s %s' % (sym, variant), 'steps': steps, 'lazy0': pending0, 'obs': obs})
     vev = vector_events(rng)
